@@ -273,7 +273,7 @@ def main(tier):
     collect(ck, outs_i, replay=lambda t, r: (replay_fixed_point(t, r), {"kind": "c14", "replay_module": "jxverif.props.C14", "target": t}))
     for (kind, t, can), o in zip([c for c in CANARIES if c[0] == "gate"] + [c for c in CANARIES if c[0] == "mech"], outs_g[len(gate_args):] + outs_m[len(mech_args):]):
         ref = o[0] == "ok" and (any(r["status"] != "proved" for r in o[1]["results"]) or o[1]["error_kind"] == "api")
-        ck.canaries.append((f"{can[0]}: {can[2]!r} -> {can[3]!r}", ref))
+        ck.canary(f"{can[0]}: {can[2]!r} -> {can[3]!r}", ref, o)
     ck.trusted = ["jxverif/specs/kinetics.py (published equations, transcribed offline; see provenance caveat)", "jax.numpy primitive models", "z3 + exp axioms"]
     ck.assumptions += [
         "domain: v in [-150,100] mV, gates in [0,1], vt in [-80,-40], vx in [-10,10], taumax in [100,1e4]",
